@@ -12,13 +12,13 @@ from mc.core import Acc, Hang, fp_hash, horizon
 ID = "C12"
 RULE = ("E-INPUT: every (domain, range, query) with domain/range end points from 13 floats of magnitude 1e-6..1e9 (both signs, "
         "both orders, a != b) + a seeded value + near-tie domains v..v(1+2^-40|1e-10|3e-7), queries = end points, interior and exterior points; exact affine reference in "
-        "rationals; clamp on/off. E-HIST: BFS over every history of domain(6)/range(6)/clamp(2)/nice()/nice(3)/copy() calls on "
+        "rationals; clamp on/off; for every ordered pair of the integers and halves -10..20 and m in {default,2,3,5,8,20}: domain, range, [clamp], nice(m), then the map through the reported domain. E-HIST: BFS over every history of domain(7)/range(6)/clamp(2)/nice()/nice(2)/nice(3)/interpolate(linear)/copy()/deepcopy()/getter read-modify-write/caller-kept lists/one-shot iterators calls on "
         "a pool of <=3 scales up to the depth bound (quick 4, thorough 6), each state rebuilt by replaying the history on fresh "
         "real objects, dedup by object-graph fingerprint incl. aliasing; invariants: end points of the reported domain map to "
-        "the reported range, operations on one scale leave every other scale's observations unchanged. "
+        "the reported range (method and call form), with clamping enabled outputs stay inside the range, operations on one scale leave every other scale's observations unchanged. "
         "Non-trivial (E-HIST): transitions on pools with >= 2 scales; (E-INPUT): query not an end point.")
 ASSUMPTIONS = ["float error bar: 8 eps (|r0|+|r1|)(1+|t|) forward, propagated through the second map for round trips",
-               "caller-side aliasing (mutating a list after passing it in) is outside the claim: arguments are fresh lists"]
+               "the setters copy what they are given: a caller that keeps editing its list afterwards does not change the scale (driven since wave 7)"]
 REQUIRED_COUNTERS = ("grid_evaluations", "hist_transitions", "hist_multi_scale_transitions", "hist_nice_after_copy", "near_tie_domains")
 EPS = 2.220446049250313e-16
 VALS = [0.0, 1e-6, -1e-6, 0.13, -0.13, 1.0, -1.0, 9.7, -9.7, 360.0, -360.0, 1e9, -1e9]
@@ -115,10 +115,10 @@ def judge_grid(a, b, r0, r1, acc=None):
 
 
 # ------------------------------------------------------------------ E-HIST
-DOM = [[0, 1], [10, -10], [0.13, 9.7], [-1, 3], [-2, 3], [0, 1.0000000003]]
+DOM = [[0, 1], [10, -10], [0.13, 9.7], [-1, 3], [-2, 3], [0, 1.0000000003], [1.5, 14.5]]
 RNG = [[0, 1], [100, 0], [-5, 5], [-1, 640], [-2, 640], [0, 1.0000000005]]
 OPS = ([("domain", d) for d in DOM] + [("range", r) for r in RNG]
-       + [("clamp", True), ("clamp", False), ("nice", None), ("nice", 3), ("copy", None), ("deepcopy", None), ("rmw-range", None), ("rmw-domain", None),
+       + [("clamp", True), ("clamp", False), ("nice", None), ("nice", 3), ("nice", 2), ("interpolate", None), ("copy", None), ("deepcopy", None), ("rmw-range", None), ("rmw-domain", None),
           ("alias-range", RNG[1]), ("alias-domain", DOM[3]), ("iter-range", RNG[2]), ("iter-domain", DOM[2])])
 PROBES = (-1, 0, .5, 1, 3, 9.7, 20)
 PRE = (0, 50, -5)
@@ -137,6 +137,9 @@ def build(hist):
             s.clamp(arg)
         elif op == "nice":
             s.nice(arg) if arg is not None else s.nice()
+        elif op == "interpolate":  # the setter, given the library's own (linear) interpolator
+            from labella.scale import d3_interpolateNumber
+            s.interpolate(d3_interpolateNumber)
         elif op == "copy":
             pool.append(s.copy())
         elif op == "deepcopy":  # a duplicate made through the standard copy protocol (option dicts holding a scale get deep-copied)
@@ -182,6 +185,12 @@ def invariant(pool):
                         % (k, list(d), list(r), d[j], y))
             if s(d[j]) != y:
                 return ("C12:hist-call-forms-differ", "scale #%d: scale(%r) = %r but the call form gives %r" % (k, d[j], y, s(d[j])))
+        if s.clamp():  # with clamping enabled outputs never leave the range
+            lo, hi = min(r[0], r[-1]), max(r[0], r[-1])
+            for x in (d[0] - 2 * (d[-1] - d[0]), d[-1] + 3 * (d[-1] - d[0]), -1e6, 1e6):
+                y = s(x)
+                if not (lo - 1e-9 * max(1, abs(lo)) <= y <= hi + 1e-9 * max(1, abs(hi))):
+                    return ("C12:hist-clamp", "scale #%d has clamping enabled, range %r, but scale(%r) = %r" % (k, list(r), x, y))
     return None
 
 
@@ -292,8 +301,33 @@ def judge_default_constructor():
     return None
 
 
+NICE_VALUES = [v / 2 for v in range(-20, 41)]  # integers and halves -10 .. 20
+
+
+def judge_after_nice(a, b, m, clamp):
+    """domain, range, [clamp], nice(m): the scale must be the affine map through the domain it then reports."""
+    from labella.scale import LinearScale
+    try:
+        s = LinearScale().domain([a, b]).range([0, 640])
+        if clamp:
+            s.clamp(True)
+        s.nice(m) if m is not None else s.nice()
+        d = s.domain()
+        ys = [s(d[0]), s(d[1]), s((d[0] + d[1]) / 2), s.invert(160)]
+    except Exception as e:
+        return "EXC:" + type(e).__name__, "domain([%r, %r]).range([0, 640]).nice(%r) raised %r" % (a, b, m, e)
+    want = [0, 640, 320, d[0] + (d[1] - d[0]) / 4]
+    for y, w in zip(ys, want):
+        if abs(y - w) > 1e-9 * max(1.0, abs(w), abs(d[0]), abs(d[1])):
+            return ("C12:after-nice", "domain([%r, %r]).range([0, 640]).nice(%r) reports the domain %r but maps its ends, its middle and "
+                    "inverts 160 to %r (expected %r)" % (a, b, m, list(d), ys, want))
+    return None
+
+
 def plan(tier, seed):
     shards = [{"kind": "ctor"}]
+    for r in range(4):
+        shards.append({"kind": "afternice", "mod": 4, "rem": r})
     vals = VALS + [_seedval(seed)]
     pairs = [(a, b) for a in vals for b in vals if a != b]
     n = 32
@@ -315,6 +349,26 @@ def run_shard(shard):
         if bad:
             acc.violation({"ctor": True}, bad[0], bad[1], order=(0, 0))
         acc.sample({"ctor": True})
+        return acc
+    if shard["kind"] == "afternice":
+        k = 0
+        for a in NICE_VALUES:
+            for b in NICE_VALUES:
+                if a == b:
+                    continue
+                k += 1
+                if k % shard["mod"] != shard["rem"]:
+                    continue
+                acc.states += 1
+                for m in (None, 2, 3, 5, 8, 20):
+                    bad = judge_after_nice(a, b, m, bool(k % 2))
+                    acc.evals += 1
+                    acc.trans += 1
+                    acc.nontriv += 1
+                    acc.counters["maps_checked_after_nice"] += 1
+                    if bad:
+                        acc.violation({"afternice": [a, b, m, bool(k % 2)]}, bad[0], bad[1], order=(1, k, m or 0))
+        acc.sample({"afternice": [a, b, m, bool(k % 2)]})
         return acc
     if shard["kind"] == "grid":
         vals = VALS + [_seedval(shard["seed"])]
@@ -342,6 +396,8 @@ def run_shard(shard):
 def replay(case):
     if case.get("ctor"):
         return judge_default_constructor()
+    if "afternice" in case:
+        return judge_after_nice(*case["afternice"])
     if "hist" in case:
         hist = [(h[0], h[1], h[2]) for h in case["hist"]]
         for k in range(1, len(hist) + 1):
